@@ -312,7 +312,8 @@ Qed.
 (* ---------- all op sequences ---------- *)
 Inductive rop :=
 | RFirst | RLast | RTerm (i : N) | REntries (lo hi max : N)
-| RApplySnap (si st : N) | RCreateSnap (i : N) | RCompact (i : N) | RAppend (es : list entry).
+| RApplySnap (si st : N) | RCreateSnap (i : N) | RCompact (i : N) | RAppend (es : list entry)
+| RReopen.   (* process restart: a fresh RocksStorage object over the same engine *)
 
 Definition rop_ok (o : rop) : Prop :=
   match o with
@@ -332,6 +333,7 @@ Definition rs_step (s : rstore) (o : rop) : rstore :=
   | RCreateSnap i => match rs_create_snapshot s i with Ok s' => s' | _ => s end
   | RCompact i => match rs_compact s i with Ok s' => s' | _ => s end
   | RAppend es => match rs_append s es with Ok s' => s' | _ => s end
+  | RReopen => rs_reopen s
   end.
 
 Lemma rs_step_inv : forall s o, rs_inv s -> rop_ok o -> rs_inv (rs_step s o).
@@ -351,6 +353,7 @@ Proof.
   - destruct (rs_compact s i) as [s'| |] eqn:E; try exact Hinv. apply (rs_compact_inv _ _ _ Hinv E).
   - destruct es as [|e0 r]; [cbn; exact Hinv|].
     destruct (rs_append s (e0 :: r)) as [s'| |] eqn:E; try exact Hinv. apply (rs_append_inv _ _ _ _ Hinv Hok E).
+  - destruct Hinv as (H1 & H2 & _). unfold rs_inv, rs_reopen. cbn. split; [exact H1|]. split; [exact H2|]. split; left; reflexivity.
 Qed.
 
 Theorem rs_cache_invariant : forall ops, Forall rop_ok ops -> rs_inv (fold_left rs_step ops rs_new).
@@ -543,4 +546,131 @@ Proof.
     unfold nnth. destruct (nth_error (ms_ents s) (N.to_nat (i - off))) as [e|] eqn:En.
     + exists e. split; [reflexivity|]. split; [|reflexivity]. rewrite (contig_nth _ _ _ _ Hall En). lia.
     + exfalso. apply nth_error_None in En. unfold nlen in H2. lia.
+Qed.
+
+(* ====================================================================================== *)
+(* 14. RocksStorage.Append is truncate-and-append on the ordered key space *)
+Lemma incr_ext : forall l1 l2, incr l1 -> incr l2 -> (forall x, In x l1 <-> In x l2) -> l1 = l2.
+Proof.
+  induction l1 as [|a r1 IH]; intros l2 H1 H2 Hiff.
+  - destruct l2 as [|b r2]; [reflexivity|]. exfalso. apply (Hiff b). left; reflexivity.
+  - destruct l2 as [|b r2]; [exfalso; apply (Hiff a); left; reflexivity|].
+    destruct H1 as [A1 A2]. destruct H2 as [B1 B2].
+    assert (a = b).
+    { pose proof (proj1 (Hiff a) (or_introl eq_refl)) as Ha. pose proof (proj2 (Hiff b) (or_introl eq_refl)) as Hb.
+      destruct Ha as [Ha|Ha]; [congruence|]. destruct Hb as [Hb|Hb]; [congruence|].
+      pose proof (B1 a Ha). pose proof (A1 b Hb). lia. }
+    subst b. f_equal. apply IH; auto. intros x. split; intros Hx.
+    + pose proof (proj1 (Hiff x) (or_intror Hx)) as G. destruct G as [<-|G]; [|exact G].
+      exfalso. pose proof (A1 a Hx). lia.
+    + pose proof (proj2 (Hiff x) (or_intror Hx)) as G. destruct G as [<-|G]; [|exact G].
+      exfalso. pose proof (B1 a Hx). lia.
+Qed.
+
+Lemma contig_incr : forall es from, contig from es -> incr es.
+Proof.
+  induction es as [|e r IH]; intros from H; [exact I|]. destruct H as [He Hr]. split; [|apply (IH _ Hr)].
+  intros x Hx. pose proof (contig_in_ge _ _ _ Hr Hx). lia.
+Qed.
+
+Lemma contig_index_inj : forall es from x y, contig from es -> In x es -> In y es -> eindex x = eindex y -> x = y.
+Proof.
+  intros es from x y H Hx Hy E. destruct (In_nth_error _ _ Hx) as [i Hi]. destruct (In_nth_error _ _ Hy) as [j Hj].
+  pose proof (contig_nth _ _ _ _ H Hi). pose proof (contig_nth _ _ _ _ H Hj).
+  assert (i = j) by lia. subst j. congruence.
+Qed.
+
+Lemma puts_In_contig : forall es from db x, incr db -> contig from es -> In x es -> In x (puts es db).
+Proof.
+  induction es as [|e r IH]; intros from db x Hdb Hc Hx; [destruct Hx|].
+  destruct Hc as [He Hr]. simpl. destruct (db_put_spec e db Hdb) as (P1 & P2 & P3 & P4).
+  destruct Hx as [<-|Hx].
+  - destruct (puts_spec r (db_put e db) P1) as (_ & _ & I3). apply I3; [exact P2|].
+    intros y Hy. pose proof (contig_in_ge _ _ _ Hr Hy). lia.
+  - apply (IH (from + 1) (db_put e db) x P1 Hr Hx).
+Qed.
+
+Theorem rs_append_spec : forall s e0 r s', rs_inv s -> contig (eindex e0) (e0 :: r) ->
+  rs_append s (e0 :: r) = Ok s' ->
+  exists first, recomputed_first s = Some first /\ rs_snapi s' = rs_snapi s /\ rs_snapt s' = rs_snapt s /\
+    (eindex e0 + nlen (e0 :: r) - 1 < first -> rs_db s' = rs_db s) /\
+    (first <= eindex e0 + nlen (e0 :: r) - 1 ->
+       rs_db s' = filter (fun e => eindex e <? N.max (eindex e0) first) (rs_db s)
+                  ++ filter (fun e => first <=? eindex e) (e0 :: r)).
+Proof.
+  intros s e0 r s' Hinv Hc H. unfold rs_append in H.
+  set (entries := e0 :: r) in *.
+  destruct (rs_first_index_inv s Hinv) as (first & s1 & Hf & Hinv1 & Hrf & Hdb1 & Hsi1 & Hst1 & Hlc1 & Hv0 & Hv1).
+  rewrite Hf in H. cbn [bind] in H. exists first. split; [exact Hrf|].
+  destruct (eindex e0 + nlen entries - 1 <? first) eqn:E1.
+  { injection H as <-. apply N.ltb_lt in E1. repeat split; auto. intros; lia. }
+  apply N.ltb_ge in E1.
+  destruct (rs_last_index_inv s1 Hinv1) as (lasti & s2 & Hl & Hinv2 & _ & Hdb2 & Hsi2 & Hst2 & Hfc2 & el & Hel & Hlv).
+  rewrite Hl in H. cbn [bind] in H.
+  assert (Hif : (if eindex e0 <? first then nskipn (first - eindex e0) entries else entries) = filter (fun e => first <=? eindex e) entries).
+  { rewrite (contig_filter_ge _ _ first Hc). destruct (eindex e0 <? first) eqn:E2; [reflexivity|].
+    apply N.ltb_ge in E2. replace (N.to_nat (first - eindex e0)) with 0%nat by lia. reflexivity. }
+  rewrite Hif in H. clear Hif. set (entries' := filter (fun e => first <=? eindex e) entries) in *.
+  destruct (contig_last_index _ _ Hc ltac:(discriminate)) as (la & Hla & Hlai). fold entries in Hla, Hlai.
+  assert (Hla' : last_opt entries' = Some la) by (apply last_opt_filter; [exact Hla|apply N.leb_le; lia]).
+  rewrite Hla' in H. injection H as <-. cbn [rs_snapi rs_snapt rs_db].
+  split; [congruence|]. split; [congruence|]. split; [intros; lia|]. intros _.
+  destruct Hinv2 as (I1 & I2 & I3 & I4). fold (puts entries' (rs_db s2)).
+  destruct (puts_spec entries' (rs_db s2) I1) as (P1 & P2 & P3).
+  (* entries' is the contiguous run starting at a := max(e0, first) *)
+  set (a := N.max (eindex e0) first).
+  assert (Hce : contig a entries').
+  { unfold entries'. rewrite (contig_filter_ge _ _ first Hc).
+    pose proof (contig_skipn _ _ (N.to_nat (first - eindex e0)) Hc) as X.
+    replace (eindex e0 + N.of_nat (N.to_nat (first - eindex e0))) with a in X by (unfold a; lia). exact X. }
+  assert (Hrange : forall x, In x entries' -> a <= eindex x /\ eindex x <= eindex la).
+  { intros x Hx. split; [apply (contig_in_ge _ _ _ Hce Hx)|].
+    apply filter_In in Hx. destruct Hx as [Hx _]. pose proof (contig_in_le _ _ _ Hc Hx). fold entries in H. lia. }
+  assert (Hcover : forall i, a <= i -> i <= eindex la -> exists x, In x entries' /\ eindex x = i).
+  { intros i Hi1 Hi2. assert (Hlen : eindex la = a + nlen entries' - 1).
+    { destruct (contig_last_index _ _ Hce) as (la' & Hl' & Hi'); [intros Hn; rewrite Hn in Hla'; discriminate|]. congruence. }
+    assert (Hne : 1 <= nlen entries'). { destruct entries'; [discriminate|]. unfold nlen; simpl; lia. }
+    destruct (nth_error entries' (N.to_nat (i - a))) as [x|] eqn:En.
+    - exists x. split; [apply (nth_error_In _ _ En)|]. rewrite (contig_nth _ _ _ _ Hce En). lia.
+    - exfalso. apply nth_error_None in En. unfold nlen in *. lia. }
+  rewrite Hdb2, Hdb1 in *.
+  apply incr_ext.
+  - destruct (eindex la <? lasti); [apply incr_filter|]; exact P1.
+  - (* filter (< a) db ++ entries' is strictly increasing *)
+    clear -Hinv Hce. destruct Hinv as (Hi & _). revert Hi. generalize (rs_db s). intros db Hi.
+    induction db as [|y db IH]; simpl; [apply (contig_incr _ _ Hce)|].
+    destruct Hi as [Y1 Y2]. destruct (eindex y <? a) eqn:E; [|].
+    + apply N.ltb_lt in E. simpl. split; [|apply IH; exact Y2]. intros x Hx. apply in_app_or in Hx. destruct Hx as [Hx|Hx].
+      * apply filter_In in Hx. apply Y1. tauto.
+      * pose proof (contig_in_ge _ _ _ Hce Hx). lia.
+    + apply IH. exact Y2.
+  - intros x. rewrite in_app_iff. split.
+    + intros Hx.
+      assert (Hx1 : In x (puts entries' (rs_db s))).
+      { destruct (eindex la <? lasti); [apply filter_In in Hx; tauto|exact Hx]. }
+      destruct (P2 x Hx1) as [He|Hd]; [right; exact He|].
+      destruct (N.lt_ge_cases (eindex x) a) as [L|G]; [left; apply filter_In; split; [exact Hd|apply N.ltb_lt; exact L]|].
+      (* an old key at or above a: either overwritten (then x is the new entry) or deleted *)
+      assert (Hxle : eindex x <= eindex la).
+      { destruct (eindex la <? lasti) eqn:E3.
+        - apply filter_In in Hx. destruct Hx as [_ Hx]. apply N.ltb_lt in Hx. lia.
+        - apply N.ltb_ge in E3. pose proof (last_opt_max _ _ (proj1 Hinv) Hel x Hd). lia. }
+      destruct (Hcover (eindex x) G Hxle) as (y & Hy & Hyi).
+      right. (* x must be y: puts keeps one entry per index *)
+      pose proof (puts_In_contig entries' a (rs_db s) y I1 Hce Hy) as Hy1.
+      assert (x = y); [|congruence].
+      clear -P1 Hx1 Hy1 Hyi. revert P1 Hx1 Hy1. generalize (puts entries' (rs_db s)). intros l Hl Hx Hy.
+      induction l as [|z l IH]; [destruct Hx|]. destruct Hl as [Z1 Z2].
+      destruct Hx as [<-|Hx]; destruct Hy as [<-|Hy]; auto.
+      * pose proof (Z1 y Hy). lia.
+      * pose proof (Z1 x Hx). lia.
+    + intros [Hx|Hx].
+      * apply filter_In in Hx. destruct Hx as [Hd Hlt]. apply N.ltb_lt in Hlt.
+        assert (Hp : In x (puts entries' (rs_db s))).
+        { apply P3; [exact Hd|]. intros e He. destruct (Hrange e He). lia. }
+        destruct (eindex la <? lasti); [|exact Hp]. apply filter_In. split; [exact Hp|].
+        apply N.ltb_lt. destruct (Hrange la (last_opt_In _ _ Hla')). lia.
+      * pose proof (puts_In_contig entries' a (rs_db s) x I1 Hce Hx) as Hp.
+        destruct (eindex la <? lasti); [|exact Hp]. apply filter_In. split; [exact Hp|].
+        apply N.ltb_lt. destruct (Hrange x Hx). lia.
 Qed.
